@@ -232,7 +232,7 @@ def r4_payload(run, F, D):
                     for a in reversed(anc):
                         if a.get("k") == "Block":
                             for s in a.get("stmts", []):
-                                if s.get("k") == "Assign" and hirq.local_name_of(s["lhs"]) == "payload" and \
+                                if s.get("k") == "Assign" and "TokenPayload" in str(F.lib.ty(hirq.unwrap_trivial(s["lhs"]).get("t"))) and \
                                         s.get("l", 0) <= node.get("l", 0):
                                     cons = [hirq.short(p) for p, _ in hirq.constructs(s["rhs"])]
                                     if any(c.endswith("Some") for c in cons) and any(c == "TokenPayload::Integer" for c in cons):
@@ -259,9 +259,9 @@ def r4_payload(run, F, D):
     px = F.body("delta::lexer::tokens::Tokens::print_xml")
     m = None
     for mm in hirq.matches(px["hir"]):
-        if hirq.local_name_of(mm["scrut"]) == "base_token":
+        if str(F.lib.ty(hirq.unwrap_trivial(mm["scrut"]).get("t"))).endswith("BaseToken") and hirq.n_alts(mm) >= 5:
             m = mm
-    run.require(m is not None, "match base_token not found in Tokens::print_xml")
+    run.require(m is not None, "the match over the BaseToken was not found in Tokens::print_xml")
     for a in m["arms"]:
         unwraps = [c for c in hirq.calls(a["body"]) if (hirq.callee(c) or "").endswith("Option::unwrap")]
         if unwraps:
@@ -296,32 +296,53 @@ def r5_accumulate(run, F, D):
     run.ob("R5-CHECKED-ACCUMULATION", "decimal arm uses checked_mul+checked_add", decimal_ops == ["checked_add", "checked_mul"],
            F.where(b), "decimal accumulation must be `value.checked_mul(10)` then `checked_add(digit)`: found %s" % decimal_ops,
            sample=chk)
-    # E140 must be conditioned on overflow, not on a digit count
+    # E140 must be conditioned on overflow, not on a digit count.  Locals by role, not by name: an *overflow flag* is a bool
+    # local set to true inside a match/if over the result of a checked_* call; a *counter* is a local that is only ever
+    # incremented by one
+    overflow_flags, counters = set(), set()
+    for m in walk(b["hir"]):
+        if m.get("k") in ("Match", "If"):
+            head = m.get("scrut") if m.get("k") == "Match" else m.get("cond")
+            if head is not None and any((hirq.callee(c) or "").startswith("core::num::checked_") for c in hirq.calls(head)):
+                for x in walk(m):
+                    if x.get("k") == "Assign" and hirq.unwrap_trivial(x["rhs"]).get("v") is True:
+                        l = hirq.unwrap_trivial(x["lhs"])
+                        if l.get("k") == "Path" and l.get("rk") == "Local":
+                            overflow_flags.add(l.get("lid"))
+    for x in walk(b["hir"]):
+        if x.get("k") == "AssignOp" and x.get("op") in ("Add", "AddAssign") and hirq.unwrap_trivial(x["rhs"]).get("v") == 1:
+            l = hirq.unwrap_trivial(x["lhs"])
+            if l.get("k") == "Path" and l.get("rk") == "Local":
+                counters.add(l.get("lid"))
+
+    def role(e):
+        e = hirq.unwrap_trivial(e)
+        if e.get("k") == "Path" and e.get("rk") == "Local":
+            return "<overflow flag>" if e.get("lid") in overflow_flags else "<counter>" if e.get("lid") in counters else "<local>"
+        return e.get("k")
     for node in walk(b["hir"]):
         if node.get("k") == "If":
             direct = hirq.unwrap_trivial(node["then"])
             then_cons = [hirq.short(p) for p, _ in hirq.constructs(direct)] if direct.get("k") == "Call" else []
             if any(c.endswith("InvalidIntegerLength") for c in then_cons):
                 cond = hirq.unwrap_trivial(node["cond"])
-                name = hirq.local_name_of(cond)
-                neg = False
                 if cond.get("k") == "Unary" and cond.get("op") == "Not":
                     continue
-                desc = name or "%s %s" % (cond.get("k"), cond.get("op"))
+                desc = role(cond) if cond.get("k") == "Path" else "%s %s" % (cond.get("k"), cond.get("op"))
                 if cond.get("k") == "Binary":
-                    desc = "%s %s %s" % (hirq.local_name_of(cond["lhs"]), cond["op"], cond["rhs"].get("v"))
-                run.ob("R5-E140-CONDITION", "if %s" % desc, name == "has_overflowed", F.where(b, node),
+                    desc = "%s %s %s" % (role(cond["lhs"]), cond["op"], hirq.unwrap_trivial(cond["rhs"]).get("v"))
+                run.ob("R5-E140-CONDITION", "if %s" % desc, desc == "<overflow flag>", F.where(b, node),
                        "E140 (InvalidIntegerLength) must be raised when the value does not fit 128 bits; `%s` rejects by digit count, "
                        "so 0b literals with leading zeros beyond 128 digits are rejected here but accepted by the first generation" % desc)
         if node.get("k") == "If" and "else" in node:
             else_cons = [hirq.short(p) for p, _ in hirq.constructs(node["else"]) ]
             cond = hirq.unwrap_trivial(node["cond"])
-            if cond.get("k") == "Unary" and cond.get("op") == "Not" and hirq.local_name_of(cond["e"]) == "has_overflowed":
+            if cond.get("k") == "Unary" and cond.get("op") == "Not" and role(cond["e"]) == "<overflow flag>":
                 # `if !has_overflowed { Ok } else { Err(InvalidIntegerLength) }`
                 inner = node["else"]
                 ic = [hirq.short(p) for p, _ in hirq.constructs(inner)]
                 if any(c.endswith("InvalidIntegerLength") for c in ic):
-                    run.ob("R5-E140-CONDITION", "if !has_overflowed .. else", True, F.where(b, node), "conditioned on overflow flag")
+                    run.ob("R5-E140-CONDITION", "if !<overflow flag> .. else", True, F.where(b, node), "conditioned on overflow flag")
     run.floor("R5-E140-CONDITION", 3)
 
 
